@@ -37,7 +37,7 @@ CaseRec(fam, op, A, B, feat) ==
    [prop |-> "C03", fam |-> fam, kind |-> "op", op |-> op, attrs |-> <<>>,
     inputs |-> <<LowerT(A), LowerT(B)>>, nout |-> 1,
     allowed |-> LowerA(SemBinary(op, A, B)),
-    cmp |-> "bits", feat |-> feat, known |-> KnownBinary(op, A, B)]
+    cmp |-> "bits", feat |-> feat, known |-> <<>>]
 
 ShapeFeat(a, b) ==
    (IF ~BCompat(a, b) THEN <<"incompatible">>
